@@ -1,20 +1,45 @@
-// Puppet for C14 (spec/Watch.tla).  Built with: rustc +1.89 --edition 2021 -g
+// Puppet for C14 (spec/Watch.tla).
+// Built with: rustc +1.89 --edition 2021 -g -C panic=abort   (no_std: the only debug info is this file's,
+// which keeps a debugger launch/restart cheap - BugStalker clones every parsed unit on restart)
 //
-// Program points (the `Phase` variable of the specification); the driver puts a breakpoint on every
+// Program points (the `phase` variable of the specification); the driver puts a breakpoint on every
 // line carrying a marker `@Pn` (markers are looked up textually, never hard-coded):
 //   P0  main, only the main thread exists, locals of scoped_fn not in scope
 //   P1  inside scoped_fn, `la` (u64) and `lb` (u32) are live stack locals
 //   P2  back in main (scope of la/lb left), still one thread
-//   P3  thread 2 has been created (after P2) and is parked
-//   P4  thread 3 has been created (after P3) and is parked
+//   P3  thread 2 has been created (after P2) and is parked in read()
+//   P4  thread 3 has been created (after P3) and is parked in read()
 //   P5  thread 2 has exited and was joined; threads {1,3}
 //   then thread 3 is released, joined, exit(0)
 //
-// With C14_WRITES=1 the segments between the program points access the globals / locals in a fixed
-// order (the `Events` table of the specification).  Without it nothing touches them, so the same
-// scripts are valid whether or not the host delivers hardware data breakpoints.
-use std::sync::mpsc::{channel, Receiver, Sender};
-use std::thread;
+// With C14_WRITES=1 in the environment the segments between the program points access the globals /
+// locals in a fixed order.  Without it nothing touches them, so the same scripts are valid whether or
+// not the host delivers hardware data breakpoints.
+#![no_std]
+#![no_main]
+
+use core::ffi::{c_char, c_int, c_void};
+use core::hint::black_box;
+
+#[link(name = "c")]
+extern "C" {
+    fn pthread_create(t: *mut u64, attr: *const c_void, f: extern "C" fn(*mut c_void) -> *mut c_void, arg: *mut c_void) -> c_int;
+    fn pthread_join(t: u64, ret: *mut *mut c_void) -> c_int;
+    fn pipe(fds: *mut c_int) -> c_int;
+    fn read(fd: c_int, buf: *mut c_void, n: usize) -> isize;
+    fn write(fd: c_int, buf: *const c_void, n: usize) -> isize;
+    fn getenv(name: *const c_char) -> *const c_char;
+    fn abort() -> !;
+}
+
+#[panic_handler]
+fn panic(_: &core::panic::PanicInfo) -> ! {
+    unsafe { abort() }
+}
+
+/// libcore's unwind tables refer to it; never called (panic = abort).
+#[no_mangle]
+pub extern "C" fn rust_eh_personality() {}
 
 #[no_mangle]
 pub static mut G0: u64 = 0x1000;
@@ -35,8 +60,8 @@ static mut WRITES: bool = false;
 fn wr(p: *mut u64) {
     unsafe {
         if WRITES {
-            let v = std::ptr::read_volatile(p);
-            std::ptr::write_volatile(p, v + 1);
+            let v = core::ptr::read_volatile(p);
+            core::ptr::write_volatile(p, v + 1);
         }
     }
 }
@@ -45,7 +70,7 @@ fn wr(p: *mut u64) {
 fn rd(p: *const u64) -> u64 {
     unsafe {
         if WRITES {
-            std::ptr::read_volatile(p)
+            core::ptr::read_volatile(p)
         } else {
             0
         }
@@ -54,13 +79,13 @@ fn rd(p: *const u64) -> u64 {
 
 #[inline(never)]
 fn nop(n: u64) -> u64 {
-    std::hint::black_box(n)
+    black_box(n)
 }
 
 #[inline(never)]
 fn scoped_fn(seed: u64) -> u64 {
-    let mut la: u64 = seed + 7;
-    let lb: u32 = (seed as u32) + 9;
+    let mut la: u64 = seed + 0x1A1A_1A1A_0000_0007; // content signature the harness recognises
+    let lb: u32 = (seed as u32) + 0x1B1B_0009;
     let mut acc = nop(1); // @P1
     wr(&mut la as *mut u64); // event: main writes la
     acc += nop(2);
@@ -68,70 +93,101 @@ fn scoped_fn(seed: u64) -> u64 {
     acc
 }
 
-enum Cmd {
-    Touch(usize),
-    Quit,
+/// One parked worker: a command pipe (main -> worker) and an answer pipe (worker -> main).
+struct Chan {
+    cmd: [c_int; 2],
+    ans: [c_int; 2],
 }
 
-fn worker(up: Sender<u32>, rx: Receiver<Cmd>, id: u32) {
-    up.send(id).unwrap();
-    loop {
-        match rx.recv() {
-            Ok(Cmd::Touch(i)) => {
-                unsafe {
-                    let p = match i {
-                        0 => &raw mut G0,
-                        1 => &raw mut G1,
-                        2 => &raw mut G2,
-                        3 => &raw mut G3,
-                        4 => &raw mut G4,
-                        _ => &raw mut G5,
-                    };
-                    wr(p);
-                }
-                up.send(100 + i as u32).unwrap();
-            }
-            Ok(Cmd::Quit) | Err(_) => return,
+fn send(fd: c_int, b: u8) {
+    let v = b;
+    unsafe {
+        if write(fd, &v as *const u8 as *const c_void, 1) != 1 {
+            abort()
         }
     }
 }
 
-fn main() {
+fn recv(fd: c_int) -> u8 {
+    let mut v = 0u8;
     unsafe {
-        WRITES = std::env::var("C14_WRITES").map(|v| v == "1").unwrap_or(false);
+        if read(fd, &mut v as *mut u8 as *mut c_void, 1) != 1 {
+            abort()
+        }
+    }
+    v
+}
+
+extern "C" fn worker(arg: *mut c_void) -> *mut c_void {
+    let ch = unsafe { &*(arg as *const Chan) };
+    send(ch.ans[1], b'u');
+    loop {
+        match recv(ch.cmd[0]) {
+            b'q' => return core::ptr::null_mut(),
+            c => {
+                let p = match c {
+                    b'0' => &raw mut G0,
+                    b'1' => &raw mut G1,
+                    b'2' => &raw mut G2,
+                    b'3' => &raw mut G3,
+                    b'4' => &raw mut G4,
+                    _ => &raw mut G5,
+                };
+                wr(p);
+                send(ch.ans[1], b'k');
+            }
+        }
+    }
+}
+
+fn spawn(ch: &mut Chan) -> u64 {
+    let mut t = 0u64;
+    unsafe {
+        if pipe(ch.cmd.as_mut_ptr()) != 0 || pipe(ch.ans.as_mut_ptr()) != 0 {
+            abort()
+        }
+        if pthread_create(&mut t, core::ptr::null(), worker, ch as *mut Chan as *mut c_void) != 0 {
+            abort()
+        }
+    }
+    if recv(ch.ans[0]) != b'u' {
+        unsafe { abort() }
+    }
+    t
+}
+
+#[no_mangle]
+pub extern "C" fn main(_argc: c_int, _argv: *const *const c_char) -> c_int {
+    unsafe {
+        let v = getenv(c"C14_WRITES".as_ptr());
+        WRITES = !v.is_null() && *v == b'1' as c_char;
     }
     let mut acc = nop(0); // @P0
-    unsafe {
-        wr(&raw mut G0); // event: main writes G0
-        acc += rd(&raw const G1); // event: main reads G1
-    }
-    acc += scoped_fn(acc);
+    wr(&raw mut G0); // event: main writes G0
+    acc += rd(&raw const G1); // event: main reads G1
+    acc += scoped_fn(nop(0));
     acc += nop(3); // @P2
-    unsafe {
-        wr(&raw mut G2); // event: main writes G2
-    }
-    let (up_tx, up_rx) = channel::<u32>();
-    let (t2_tx, t2_rx) = channel::<Cmd>();
-    let up2 = up_tx.clone();
-    let t2 = thread::spawn(move || worker(up2, t2_rx, 2));
-    assert_eq!(up_rx.recv().unwrap(), 2);
+    wr(&raw mut G2); // event: main writes G2
+    let mut c2 = Chan { cmd: [0; 2], ans: [0; 2] };
+    let t2 = spawn(&mut c2);
     acc += nop(4); // @P3
-    t2_tx.send(Cmd::Touch(3)).unwrap(); // event: thread 2 writes G3
-    assert_eq!(up_rx.recv().unwrap(), 103);
-    let (t3_tx, t3_rx) = channel::<Cmd>();
-    let up3 = up_tx.clone();
-    let t3 = thread::spawn(move || worker(up3, t3_rx, 3));
-    assert_eq!(up_rx.recv().unwrap(), 3);
+    send(c2.cmd[1], b'3'); // event: thread 2 writes G3
+    recv(c2.ans[0]);
+    let mut c3 = Chan { cmd: [0; 2], ans: [0; 2] };
+    let t3 = spawn(&mut c3);
     acc += nop(5); // @P4
-    t3_tx.send(Cmd::Touch(4)).unwrap(); // event: thread 3 writes G4
-    assert_eq!(up_rx.recv().unwrap(), 104);
-    t2_tx.send(Cmd::Quit).unwrap();
-    t2.join().unwrap();
-    acc += nop(6); // @P5
+    send(c3.cmd[1], b'4'); // event: thread 3 writes G4
+    recv(c3.ans[0]);
+    send(c2.cmd[1], b'q');
     unsafe {
-        wr(&raw mut G5); // event: main writes G5
+        pthread_join(t2, core::ptr::null_mut());
     }
-    t3_tx.send(Cmd::Quit).unwrap();
-    t3.join().unwrap();
-    std::hint::black_box(acc);
+    acc += nop(6); // @P5
+    wr(&raw mut G5); // event: main writes G5
+    send(c3.cmd[1], b'q');
+    unsafe {
+        pthread_join(t3, core::ptr::null_mut());
+    }
+    black_box(acc);
+    0
 }
